@@ -13,14 +13,19 @@
   executes and the `index` engine compares with the real `process_minidump` on every run — for dumps
   with ANY number of threads, names, modules, memory regions and any field values. "Processable" =
   the dump has a thread list (`d.threads = some ts`); `index_total` shows the model then never
-  panics and yields a state (or, for a big-endian dump whose walk would read stack memory, says
-  `unmodelled`).
+  panics and yields a state — in either byte order: the stack memory of a big-endian dump is read
+  big-endian (`walk_mem_endian`), as `MinidumpMemoryBase::get_memory_at_address` does.
 
   `index` CALLS the walker model `MdModel.Walk.walk` (C05/C04) on the stack memory it selects with
   the start context it chooses: `stacks_are_walks` states this for every call stack of the state, so
   C05's well-formedness (`walk_wf`), C03's frame bound (`walk_bound`) and C05's module cover
   (`walk_covered`) hold for every stack of the process state (`stacks_wf`, `stacks_frame_bound`,
-  `frame_module_sound`).
+  `frame_module_sound`). The symbol files the supplier has are part of the dump description
+  (`Dump.syms`), so these walks include CFI / STACK WIN frames and the frames carry the functions
+  `fill_symbol` finds; contexts carry all their registers.
+  `own_stack_by_start_redundant`: the fallback lookup of `MinidumpThread::stack_memory` by
+  `start_of_memory_range` never changes a call stack (on top of C08: index-valued tables are never
+  merged, `RangeMap.safeVec_mem_of_distinct`).
 
   Reading of the text (DESIGN.md §6.0): with duplicate thread ids the LAST matching thread is the
   requesting thread and the LAST readable duplicate name wins.
@@ -32,6 +37,7 @@ import MdProofs.Lemmas.Index
 import MdProofs.Lemmas.IndexReason
 import MdProofs.Lemmas.IndexUnloaded
 import MdProofs.Lemmas.IndexMem
+import MdProofs.Lemmas.IndexWalk
 import MdProofs.C05
 namespace MdModel.Index
 open MdModel
@@ -248,7 +254,7 @@ theorem context_preference (d : Dump) (ts : List Thread) (s : State)
       rw [hs] at hfr
       simp only at hfr
       obtain ⟨g0, grest, hg, htrust, hctx, hin⟩ :=
-        (Walk.walk_wf (envOf d (stackMemOf d ts[i])) (walkMem d.arch (stackMemOf d ts[i])) (toCtx d.arch r)).head
+        (Walk.walk_wf (envOf d (stackMemOf d ts[i])) (walkMem d (stackMemOf d ts[i])) (toCtx d.arch r)).head
       unfold framesOf at hfr
       rw [hg] at hfr
       cases hfs : s.stacks[i].frames with
@@ -723,14 +729,12 @@ theorem statusPid_none (kv : List (String × String)) (h : ∀ e ∈ kv, e.1 ≠
 
 /-! ## 7. "Modules, unloaded modules with per-frame offsets … are those of the corresponding streams" -/
 
-/-- **C14.0** a dump with a thread list is always processed: no panic outcome — neither the
-    `unwrap` inside the loaded-module and memory range tables (C08 `safe_ok`) nor the checked
-    subtraction `frame.instruction - base_of_image` (every module returned by the lookup covers the
-    address, C08 `unloaded_exact`) can fire. The model yields a state, except that it declines
-    (`unmodelled`) a BIG-endian dump in which some walk would read stack memory. -/
+/-- **C14.0** a dump with a thread list is always processed, in either byte order: no panic
+    outcome — neither the `unwrap` inside the loaded-module and memory range tables (C08 `safe_ok`)
+    nor the checked subtraction `frame.instruction - base_of_image` (every module returned by the
+    lookup covers the address, C08 `unloaded_exact`) can fire — and the model yields a state. -/
 theorem index_total (d : Dump) (ts : List Thread) (hth : d.threads = some ts) :
-    (∃ s, index d = .state s) ∨
-    (index d = .unmodelled ∧ d.bigEndian = true ∧ walksMemory d (ts.map (stackOf d)) = true) := by
+    ∃ s, index d = .state s := by
   have hatt : ∃ ss, optMap (attachStack (unloadedModules d)) (ts.map (stackOf d)) = some ss := by
     apply optMap_some_of
     intro p _
@@ -742,22 +746,8 @@ theorem index_total (d : Dump) (ts : List Thread) (hth : d.threads = some ts) :
   rw [hth]
   simp only [tableOk_modEntries, tableOk_memEntries, Bool.and_self, Bool.not_true, Bool.false_eq_true,
     if_false]
-  rw [loop_stacks]
-  by_cases hbe : (d.bigEndian && walksMemory d (ts.map (stackOf d))) = true
-  · right
-    rw [if_pos hbe]
-    simp only [Bool.and_eq_true] at hbe
-    exact ⟨rfl, hbe.1, hbe.2⟩
-  · left
-    rw [if_neg hbe, hss]
-    exact ⟨_, rfl⟩
-
-/-- a little-endian dump with a thread list always yields a state -/
-theorem index_total_le (d : Dump) (ts : List Thread) (hth : d.threads = some ts)
-    (hle : d.bigEndian = false) : ∃ s, index d = .state s := by
-  rcases index_total d ts hth with h | ⟨-, hbe, -⟩
-  · exact h
-  · rw [hle] at hbe; cases hbe
+  rw [loop_stacks, hss]
+  exact ⟨_, rfl⟩
 
 /-- without a thread list nothing is produced (`ProcessError::MissingThreadList`) -/
 theorem index_no_thread_list (d : Dump) (hth : d.threads = none) : index d = .missingThreadList := by
@@ -894,9 +884,12 @@ theorem memory_list_rule (d : Dump) :
     before the unloaded-module attribution which leaves them alone — `Walk.walk` (the model of
     `walk_stack` that C05's and C04's theorems are about) run
       * from the start context `start_context_rule` names, all registers valid,
-      * on the stack memory `stack_memory_rule` selects for that context's stack pointer (no memory
-        on a CPU whose contexts have no unwinder: PPC, PPC64, SPARC),
-      * in the environment made of the state's loaded modules without symbol files;
+      * on the stack memory `stack_memory_rule` selects for that context's stack pointer, read in
+        the dump's byte order (`walk_mem_endian`; no memory on a CPU whose contexts have no
+        unwinder: PPC, PPC64, SPARC),
+      * in the environment made of the state's loaded modules and the symbol files the supplier
+        has for them (`env_spec`) — so the frames are found by STACK CFI / STACK WIN where records
+        cover them, by frame pointer or scanning otherwise, and carry the function of `fill_symbol`;
     and a thread without start context (dump-writer thread, unreadable contexts) has no frame. -/
 theorem stacks_are_walks (d : Dump) (ts : List Thread) (s : State)
     (hth : d.threads = some ts) (h : index d = .state s)
@@ -905,7 +898,7 @@ theorem stacks_are_walks (d : Dump) (ts : List Thread) (s : State)
       match startCtx d ts[i] with
       | some r =>
         Walk.walk (envOf d (selectMem (memoryList d) ts[i] (some r.sp)))
-          (walkMem d.arch (selectMem (memoryList d) ts[i] (some r.sp))) (toCtx d.arch r)
+          (walkMem d (selectMem (memoryList d) ts[i] (some r.sp))) (toCtx d.arch r)
       | none => [] := by
   obtain ⟨-, hat⟩ := stack_at d ts s hth h
   obtain ⟨-, -, -, hfr, -⟩ := attachStack_core _ _ _ (hat i h1 h2)
@@ -914,14 +907,46 @@ theorem stacks_are_walks (d : Dump) (ts : List Thread) (s : State)
   | none => rfl
   | some r => simp [framesOf, stackMemOf, hs]
 
-/-- the walker's architecture and OS class, module list and (absent) symbols of that environment -/
+/-- the walker's architecture and OS class; the environment is `Walk.mkEnv` (engine `walk`'s, C05's
+    and C04's single-technique theorems') when no symbol file of a loaded module has STACK WIN
+    records, `Walk.mkEnvW` (engine `chain`'s, C04's STACK WIN / mixed theorems') otherwise; its
+    modules are the state's loaded modules, each with the symbol file the supplier has under the
+    module's name -/
 theorem env_spec (d : Dump) (sel : Option Mem) :
     (envOf d sel).arch = (unwinderOf d.arch).getD .x86 ∧
     (envOf d sel).os = walkOs (Os.ofPlatformId d.platformId) ∧
-    envOf d sel = Walk.mkEnv ((unwinderOf d.arch).getD .x86) (walkOs (Os.ofPlatformId d.platformId))
-      { mods := (loadedModules d).map toModule, syms := (loadedModules d).map fun _ => none }
-      ((walkMem d.arch sel).getD { base := 0, bytes := #[] }) :=
-  ⟨rfl, rfl, rfl⟩
+    (Walk.noWins (winsOf d) = true →
+      envOf d sel = Walk.mkEnv ((unwinderOf d.arch).getD .x86) (walkOs (Os.ofPlatformId d.platformId))
+        (worldOf d) ((walkMem d sel).getD { base := 0, bytes := #[] })) ∧
+    (Walk.noWins (winsOf d) = false →
+      envOf d sel = Walk.mkEnvW ((unwinderOf d.arch).getD .x86) (walkOs (Os.ofPlatformId d.platformId))
+        (worldOf d) (winsOf d) ((walkMem d sel).getD { base := 0, bytes := #[] })) ∧
+    (worldOf d).mods = (loadedModules d).map toModule ∧
+    (worldOf d).syms = (loadedModules d).map (fun m => (d.syms.lookup m.name).map (·.1)) ∧
+    winsOf d = (loadedModules d).map (fun m => ((d.syms.lookup m.name).map (·.2)).getD []) := by
+  refine ⟨?_, ?_, ?_, ?_, rfl, rfl, rfl⟩
+  · unfold envOf; simp only; split <;> rfl
+  · unfold envOf; simp only; split <;> rfl
+  · intro h; unfold envOf; simp only; rw [if_pos h]
+  · intro h; unfold envOf; simp only; rw [if_neg (by simp [h])]
+
+/-- **byte order**: the memory a walk reads is the selected region with the DUMP's byte order — a
+    big-endian dump's stack words are read big-endian (`Mem.read` on `be := true` is `beAt`) —
+    and nothing at all on a CPU without an unwinder -/
+theorem walk_mem_endian (d : Dump) (sel : Option Mem) :
+    ((unwinderOf d.arch).isSome = false → walkMem d sel = none) ∧
+    ((unwinderOf d.arch).isSome = true →
+      walkMem d sel = sel.map fun m => { base := m.base, bytes := m.bytes, be := d.bigEndian }) := by
+  constructor
+  · intro h; simp [walkMem, h]
+  · intro h; simp [walkMem, h]
+
+/-- what "read in the memory's byte order" means: most significant byte first iff `be` -/
+theorem mem_read_endian (m : Mem) (addr w : Nat) (h : m.base ≤ addr) (hfit : addr - m.base + w ≤ m.size) :
+    m.read addr w = some (if m.be then m.beAt (addr - m.base) w else m.leAt (addr - m.base) w) := by
+  unfold Mem.read Mem.wordAt
+  rw [if_neg (by omega)]
+  simp only [hfit, if_true]
 
 /-- **C05 for the process state**: every call stack that has a start context satisfies C05's
     well-formedness invariant `Walk.WF` (context frame first; later frames with return address
@@ -932,10 +957,13 @@ theorem stacks_wf (d : Dump) (ts : List Thread) (s : State)
     (hth : d.threads = some ts) (h : index d = .state s)
     (i : Nat) (h1 : i < ts.length) (h2 : i < s.stacks.length) (r : Regs) (hr : startCtx d ts[i] = some r) :
     Walk.WF ((unwinderOf d.arch).getD .x86)
-      (Walk.usedMem (walkMem d.arch (selectMem (memoryList d) ts[i] (some r.sp))))
+      (Walk.usedMem (walkMem d (selectMem (memoryList d) ts[i] (some r.sp))))
       (toCtx d.arch r) (s.stacks[i].frames.map (·.f)) := by
   rw [stacks_are_walks d ts s hth h i h1 h2, hr]
-  exact Walk.walk_wf (envOf d (selectMem (memoryList d) ts[i] (some r.sp))) _ _
+  have := Walk.walk_wf (envOf d (selectMem (memoryList d) ts[i] (some r.sp)))
+    (walkMem d (selectMem (memoryList d) ts[i] (some r.sp))) (toCtx d.arch r)
+  rw [(env_spec d _).1] at this
+  exact this
 
 /-- **C03's frame bound for the process state**: no call stack has more frames than the stack
     memory selected for it has bytes, plus two (a thread without stack memory: at most two — in
@@ -953,15 +981,17 @@ theorem stacks_frame_bound (d : Dump) (ts : List Thread) (s : State)
   | some r =>
     simp only [Option.map_some]
     have hb := Walk.walk_bound (envOf d (selectMem (memoryList d) ts[i] (some r.sp)))
-      (walkMem d.arch (selectMem (memoryList d) ts[i] (some r.sp))) (toCtx d.arch r)
+      (walkMem d (selectMem (memoryList d) ts[i] (some r.sp))) (toCtx d.arch r)
     refine Nat.le_trans hb ?_
     unfold walkMem
     split
-    · exact Nat.le_refl _
+    · cases selectMem (memoryList d) ts[i] (some r.sp) with
+      | none => exact Nat.le_refl _
+      | some m => exact Nat.le_refl _
     · simp
 
 /-- a thread whose selected memory is absent (or whose CPU has no unwinder) has the context frame only -/
-theorem no_memory_one_frame (d : Dump) (sel : Option Mem) (c : Walk.Ctx) (h : walkMem d.arch sel = none) :
+theorem no_memory_one_frame (d : Dump) (sel : Option Mem) (c : Walk.Ctx) (h : walkMem d sel = none) :
     (framesOf d sel c).length = 1 := by
   unfold framesOf
   rw [h]
@@ -983,11 +1013,99 @@ theorem frame_module_sound (d : Dump) (ts : List Thread) (s : State)
   | some r =>
     rw [hs] at hmem
     simp only at hmem
-    obtain ⟨hcov, -⟩ := Walk.walk_covered _ _ _ _ _ _ _ hmem
-    obtain ⟨wm, hwm, hlo, hhi⟩ := hcov k hk
+    obtain ⟨hmod, -⟩ := Walk.walk_symbolised _ _ _ _ hmem
+    rw [hk, envOf_symb_fst] at hmod
+    obtain ⟨wm, hwm, hlo, hhi⟩ := Walk.moduleAt_sound _ _ _ hmod.symm
     simp only [worldOf, List.getElem?_map, Option.map_eq_some_iff] at hwm
     obtain ⟨m, hmk, rfl⟩ := hwm
     exact ⟨m, by rw [hm]; exact hmk, hlo, hhi⟩
+
+/-! ## 10b. the lookup of a thread's stack memory by its start address is redundant -/
+
+/-- the memory handed to `walk_stack` if `MinidumpThread::stack_memory` did NOT fall back to
+    `memory_list.memory_at_address(stack.start_of_memory_range)` when the thread's own stack
+    descriptor cannot be read (`selectMem` with `ownDesc t` in place of `ownStack mem t`) -/
+def selectMemDirect (mem : List Mem) (t : Thread) (sp : Option Nat) : Option Mem :=
+  match sp with
+  | none => ownDesc t
+  | some sp =>
+    if hasWord (ownDesc t) sp then ownDesc t
+    else
+      match memAt mem sp with
+      | some r => some r
+      | none => ownDesc t
+
+/-- a region the memory list serves at one address is served at every address of its own range
+    (the list's table is index-valued: no two regions are merged — `RangeMap.get_same_entry`) -/
+theorem stack_memory_lookup_same_region (mem : List Mem) (a b : Nat) (r : Mem) (h : memAt mem a = some r)
+    (hb : r.base ≤ b ∧ b < r.base + r.size) : memAt mem b = some r :=
+  memAt_same_region mem a b r h hb
+
+/-- with and without the fallback the selected memories are the same, or neither contains the
+    start stack pointer -/
+theorem selectMem_direct_cases (mem : List Mem) (t : Thread) (sp : Nat) :
+    selectMem mem t (some sp) = selectMemDirect mem t (some sp) ∨
+    (selectMemDirect mem t (some sp) = none ∧
+      ∃ r, selectMem mem t (some sp) = some r ∧ ¬ (r.base ≤ sp ∧ sp < r.base + r.size)) := by
+  unfold selectMem selectMemDirect ownStack
+  simp only
+  cases hd : ownDesc t with
+  | some m => left; rfl
+  | none =>
+    simp only [hasWord_none, Bool.false_eq_true, if_false]
+    cases ho : memAt mem t.stackStart with
+    | none =>
+      left
+      simp only [hasWord_none, Bool.false_eq_true, if_false]
+      rfl
+    | some r0 =>
+      by_cases hw : hasWord (some r0) sp = true
+      · -- the region found by the start address holds eight bytes at sp: the lookup by sp finds it too
+        left
+        rw [if_pos hw]
+        have hin := (hasWord_some_iff r0 sp).mp hw
+        rw [memAt_same_region mem t.stackStart sp r0 ho ⟨hin.1, by omega⟩]
+      · rw [if_neg hw]
+        cases hs : memAt mem sp with
+        | some r => left; rfl
+        | none =>
+          right
+          refine ⟨rfl, r0, rfl, ?_⟩
+          intro hin
+          have := memAt_same_region mem t.stackStart sp r0 ho hin
+          rw [hs] at this
+          cases this
+
+/-- **C14.10b (own_stack_by_start_redundant)** the fallback of `MinidumpThread::stack_memory` — "when
+    the thread's own stack descriptor cannot be read, use the region of the memory list that contains
+    `stack.start_of_memory_range`" — never changes a call stack: the region it finds is handed to the
+    walker only if it holds a word at the start stack pointer, and then the lookup by the stack
+    pointer finds the same region (`stack_memory_lookup_same_region`); if it does not contain the
+    stack pointer, the walk stops at the context frame with it as without it
+    (`Walk.walk_sp_outside`). So the frames of every call stack are the walk on `selectMemDirect`. -/
+theorem own_stack_by_start_redundant (d : Dump) (t : Thread) (r : Regs) :
+    framesOf d (selectMem (memoryList d) t (some r.sp)) (toCtx d.arch r) =
+      framesOf d (selectMemDirect (memoryList d) t (some r.sp)) (toCtx d.arch r) := by
+  rcases selectMem_direct_cases (memoryList d) t r.sp with h | ⟨hnone, r0, hsome, hout⟩
+  · rw [h]
+  · rw [hnone, hsome]
+    exact framesOf_sp_outside d r0 (toCtx d.arch r) hout
+
+/-- … stated for the process state: every call stack is the walk on the memory selected WITHOUT the
+    fallback -/
+theorem stacks_are_walks_direct (d : Dump) (ts : List Thread) (s : State)
+    (hth : d.threads = some ts) (h : index d = .state s)
+    (i : Nat) (h1 : i < ts.length) (h2 : i < s.stacks.length) :
+    s.stacks[i].frames.map (·.f) =
+      match startCtx d ts[i] with
+      | some r =>
+        Walk.walk (envOf d (selectMemDirect (memoryList d) ts[i] (some r.sp)))
+          (walkMem d (selectMemDirect (memoryList d) ts[i] (some r.sp))) (toCtx d.arch r)
+      | none => [] := by
+  rw [stacks_are_walks d ts s hth h i h1 h2]
+  cases hs : startCtx d ts[i] with
+  | none => rfl
+  | some r => exact own_stack_by_start_redundant d ts[i] r
 
 /-! ## 11. the copy rules: fields of the state taken over from one stream -/
 
@@ -1000,7 +1118,7 @@ theorem copy_rules (d : Dump) (ts : List Thread) (s : State)
     s.sys = sysInfo d.platformId d.arch d.sys ∧ s.lsb = d.lsb.map lsbOf ∧
     s.macCrash = macCrashInfo d.macCrash ∧ s.bootArgs = d.bootArgs ∧ s.handles = d.handles ∧
     s.assertion = none ∧ s.certs = [] := by
-  obtain ⟨-, -, -, -, -, -, -, -, h1, h2, h3, h4, h5, h6, h7, -⟩ := index_state_inv d ts s hth h
+  obtain ⟨-, -, -, -, -, -, -, -, h1, h2, h3, h4, h5, h6, h7⟩ := index_state_inv d ts s hth h
   exact ⟨h1, h2, h3, h4, h7, h5, h6⟩
 
 /-- `system_info.cpu_count` is `number_of_processors`; `os_version` is always present -/
@@ -1149,40 +1267,40 @@ theorem mac_crash_spec (rs : List MacRec) :
     requesting thread, thread 7 is skipped and keeps its name -/
 def exampleDump : Dump :=
   { platformId := 3, arch := 0, timestamp := 42,
-    threads := some [⟨5, some ⟨0x1000, 0, 0⟩, 0, .unreadable⟩, ⟨7, some ⟨0x2000, 0, 0⟩, 0, .unreadable⟩,
+    threads := some [⟨5, some ⟨0x1000, 0, 0, []⟩, 0, .unreadable⟩, ⟨7, some ⟨0x2000, 0, 0, []⟩, 0, .unreadable⟩,
                      ⟨5, none, 0, .unreadable⟩],
     names := [(5, some "a"), (7, some "writer"), (5, none), (5, some "b"), (5, none)],
     breakpad := some ⟨3, 7, 5⟩,
-    exc := some (⟨5, 0xc0000005, 0, 0xffffffff80001234, 2, 1, 0xffffffff00000010, 0⟩, some ⟨0x3000, 0, 0⟩),
+    exc := some (⟨5, 0xc0000005, 0, 0xffffffff80001234, 2, 1, 0xffffffff00000010, 0⟩, some ⟨0x3000, 0, 0, []⟩),
     misc := some ⟨1, 99, 1000⟩, status := some [("Pid", "7")],
     modules := [⟨0x2f00, 0x200, some "m"⟩],
     unloaded := [⟨0x2000, 0x2000, some "u"⟩, ⟨0x3000, 1, some "v"⟩, ⟨0x3001, 5, some "w"⟩] }
 
 def exampleThreads : List Thread :=
-  [⟨5, some ⟨0x1000, 0, 0⟩, 0, .unreadable⟩, ⟨7, some ⟨0x2000, 0, 0⟩, 0, .unreadable⟩, ⟨5, none, 0, .unreadable⟩]
+  [⟨5, some ⟨0x1000, 0, 0, []⟩, 0, .unreadable⟩, ⟨7, some ⟨0x2000, 0, 0, []⟩, 0, .unreadable⟩, ⟨5, none, 0, .unreadable⟩]
 
 /-- the hypotheses of the theorems above are inhabited by `exampleDump` … -/
 example : ∃ s, exampleDump.threads = some exampleThreads ∧ index exampleDump = .state s := by
-  obtain ⟨s, hs⟩ := index_total_le exampleDump exampleThreads rfl rfl
+  obtain ⟨s, hs⟩ := index_total exampleDump exampleThreads rfl
   exact ⟨s, rfl, hs⟩
 
 /-- … and this is what they say about it (the sort-free parts evaluated by the kernel) -/
 example :
     exampleThreads.map (fun t => ((stackOf exampleDump t).id, (stackOf exampleDump t).name,
         (stackOf exampleDump t).info, startCtx exampleDump t)) =
-      [(5, some "b", .ok, some ⟨0x3000, 0, 0⟩), (7, some "writer", .dumpThreadSkipped, none),
-       (5, some "b", .ok, some ⟨0x3000, 0, 0⟩)] ∧
+      [(5, some "b", .ok, some ⟨0x3000, 0, 0, []⟩), (7, some "writer", .dumpThreadSkipped, none),
+       (5, some "b", .ok, some ⟨0x3000, 0, 0, []⟩)] ∧
     (loop exampleDump 0 exampleThreads none).2 = some 2 ∧
     requestingId exampleDump = some 5 ∧ dumpThreadId exampleDump.breakpad = some 7 ∧
     processId exampleDump = some 99 ∧ createTime exampleDump = none := by decide
 
-example : isDumpThread exampleDump ⟨7, some ⟨0x2000, 0, 0⟩, 0, .unreadable⟩ = true ∧
+example : isDumpThread exampleDump ⟨7, some ⟨0x2000, 0, 0, []⟩, 0, .unreadable⟩ = true ∧
     nameOf exampleDump.names 7 = some "writer" ∧
-    (stackOf exampleDump ⟨7, some ⟨0x2000, 0, 0⟩, 0, .unreadable⟩).name = some "writer" := by decide
+    (stackOf exampleDump ⟨7, some ⟨0x2000, 0, 0, []⟩, 0, .unreadable⟩).name = some "writer" := by decide
 
 example : isRequesting exampleDump ⟨5, none, 0, .unreadable⟩ = true ∧
-    isRequesting exampleDump ⟨7, some ⟨0x2000, 0, 0⟩, 0, .unreadable⟩ = false ∧
-    excCtx exampleDump = some ⟨0x3000, 0, 0⟩ := by decide
+    isRequesting exampleDump ⟨7, some ⟨0x2000, 0, 0, []⟩, 0, .unreadable⟩ = false ∧
+    excCtx exampleDump = some ⟨0x3000, 0, 0, []⟩ := by decide
 
 /-- the frame at 0x3000 is covered by the unloaded modules `u` (offset 0x1000) and `v` (offset 0),
     not by `w` -/
@@ -1236,12 +1354,12 @@ def regionB : Mem :=
                                  0,0,0,0,0,0,0,0, 0,0,0,0,0,0,0,0] }
 
 /-- thread 1 owns region A; its own context has sp in A, the exception context has sp in B -/
-def walkThread : Thread := ⟨1, some ⟨0x400100, 0x10008, 0x10010⟩, 0x10000, .bytes regionA.bytes⟩
+def walkThread : Thread := ⟨1, some ⟨0x400100, 0x10008, 0x10010, []⟩, 0x10000, .bytes regionA.bytes⟩
 
 def walkDump : Dump :=
   { platformId := 0x8201, arch := 9, timestamp := 1,
     threads := some [walkThread], names := [], breakpad := none,
-    exc := some (⟨1, 11, 1, 0x1234, 0, 0, 0, 0⟩, some ⟨0x400200, 0x20000, 0⟩),
+    exc := some (⟨1, 11, 1, 0x1234, 0, 0, 0, 0⟩, some ⟨0x400200, 0x20000, 0, []⟩),
     misc := none, status := none,
     modules := [⟨0x400000, 0x1000, some "mod"⟩], unloaded := [],
     memList := some [⟨0x10000, some regionA.bytes⟩, ⟨0x20000, some regionB.bytes⟩] }
@@ -1260,8 +1378,8 @@ example : memAt ([regionA] ++ regionB :: []) 0x20000 = some regionB :=
 /-- `stacks_are_walks` / `stacks_wf` / `stacks_frame_bound` have inhabited hypotheses: the dump is
     processed, thread 0 is the requesting thread and starts from the exception context -/
 example : ∃ s, walkDump.threads = some [walkThread] ∧ index walkDump = .state s ∧
-    startCtx walkDump walkThread = some ⟨0x400200, 0x20000, 0⟩ := by
-  obtain ⟨s, hs⟩ := index_total_le walkDump [walkThread] rfl rfl
+    startCtx walkDump walkThread = some ⟨0x400200, 0x20000, 0, []⟩ := by
+  obtain ⟨s, hs⟩ := index_total walkDump [walkThread] rfl
   exact ⟨s, rfl, hs, by decide⟩
 
 /-- … and `stack_memory_rule` (2) gives region B for that thread's walk -/
@@ -1269,6 +1387,118 @@ example : selectMem [regionA, regionB] walkThread (some 0x20000) = some regionB 
   (stack_memory_rule [regionA, regionB] walkThread 0x20000).2.1 (by decide) regionB
     (stack_memory_lookup_complete [regionA] [] regionB 0x20000 (by decide)
       (by intro x hx; simp at hx; subst hx; right; right; left; decide) (by decide))
+
+/-! ### byte order: the same dump written big-endian -/
+
+/-- region A / B of `walkDump` as a big-endian writer stores them (most significant byte first) -/
+def regionAbe : Mem :=
+  { base := 0x10000, bytes := #[0,0,0,0,0,0,0,0, 0,0,0,0,0,0,0,0,
+                                 0,0,0,0,0,1,0,0x30, 0,0,0,0,0,0x40,3,0x10,
+                                 0,0,0,0,0,0,0,0, 0,0,0,0,0,0,0,0,
+                                 0,0,0,0,0,0,0,0, 0,0,0,0,0,0,0,0] }
+def regionBbe : Mem :=
+  { base := 0x20000, bytes := #[0,0,0,0,0,0,0,0, 0,0,0,0,0,0x40,3,0x20,
+                                 0,0,0,0,0,0,0,0, 0,0,0,0,0,0,0,0,
+                                 0,0,0,0,0,0,0,0, 0,0,0,0,0,0,0,0,
+                                 0,0,0,0,0,0,0,0, 0,0,0,0,0,0,0,0] }
+
+def walkDumpBE : Dump :=
+  { walkDump with
+    bigEndian := true,
+    threads := some [{ walkThread with stack := .bytes regionAbe.bytes }],
+    memList := some [⟨0x10000, some regionAbe.bytes⟩, ⟨0x20000, some regionBbe.bytes⟩] }
+
+/-- `index_total` on a BIG-endian dump whose walk reads stack memory: a state, no exception -/
+example : ∃ s, index walkDumpBE = .state s ∧ walkDumpBE.bigEndian = true :=
+  let ⟨s, hs⟩ := index_total walkDumpBE [{ walkThread with stack := .bytes regionAbe.bytes }] rfl
+  ⟨s, hs, rfl⟩
+
+/-- `walk_mem_endian`: amd64 has an unwinder, so the walk gets region B with `be := true` … -/
+example : walkMem walkDumpBE (some regionBbe) = some { regionBbe with be := true } :=
+  ((walk_mem_endian walkDumpBE (some regionBbe)).2 (by decide))
+
+/-- … and reads its words big-endian (`mem_read_endian`): the return address 0x400320 at 0x20008,
+    which the same bytes read little-endian are not; the little-endian image gives the same word -/
+example : ({ regionBbe with be := true } : Mem).read 0x20008 8 = some 0x400320 ∧
+    regionBbe.read 0x20008 8 = some 0x2003400000000000 ∧ regionB.read 0x20008 8 = some 0x400320 := by decide
+
+/-- the frame-pointer unwinder on the big-endian image of region A recovers the same caller
+    (return address 0x400310, saved rbp 0x10030, sp = rbp + 16) as on the little-endian image -/
+example :
+    (Walk.fpAmd64 .other { regionAbe with be := true } (toCtx 9 ⟨0x400100, 0x10008, 0x10010, []⟩)).map
+        (fun c => (c.ip, c.sp, c.rest)) = some (0x400310, 0x10020, [("rbp", 0x10030)]) ∧
+    (Walk.fpAmd64 .other regionA (toCtx 9 ⟨0x400100, 0x10008, 0x10010, []⟩)).map
+        (fun c => (c.ip, c.sp, c.rest)) = some (0x400310, 0x10020, [("rbp", 0x10030)]) := by decide
+
+/-! ### symbol files: STACK CFI and STACK WIN records reach the walks of a dump -/
+
+/-- `walkDump` with a symbol file for module `mod`: one FUNC and its canonical STACK CFI record;
+    the context carries the callee-saved registers rbx and r12 -/
+def cfiDump : Dump :=
+  { walkDump with
+    threads := some [{ walkThread with ctx := some ⟨0x400100, 0x10008, 0x10010, [("rbx", 7), ("r12", 9)]⟩ }],
+    exc := none,
+    syms := [("mod", { funcs := [⟨0x100, 0x300, 0, "f"⟩],
+                        cfis := [⟨0x100, 0x300, ".cfa: $rsp 16 + .ra: .cfa -8 + ^", []⟩] }, [])] }
+
+/-- `env_spec` on it: the module gets the supplier's file (its CFI record included), no STACK WIN
+    record exists, so the environment is `Walk.mkEnv` — the one C04's `walk_layout_cfi` is about;
+    and the start context hands the walker rbx / r12 (all registers valid) -/
+example : (worldOf cfiDump).syms.map (fun o => o.map fun sf => (sf.funcs.length, sf.cfis.length)) = [some (1, 1)] ∧
+    Walk.noWins (winsOf cfiDump) = true ∧
+    ((toCtx 9 ⟨0x400100, 0x10008, 0x10010, [("rbx", 7), ("r12", 9)]⟩).raw .amd64 "r12" = 9) ∧
+    ((toCtx 9 ⟨0x400100, 0x10008, 0x10010, [("rbx", 7), ("r12", 9)]⟩).raw .amd64 "rbp" = 0x10010) ∧
+    (toCtx 9 ⟨0x400100, 0x10008, 0x10010, [("rbx", 7), ("r12", 9)]⟩).valid = none := by decide
+
+/-- an x86 dump whose module has a STACK WIN record: the environment is `Walk.mkEnvW` -/
+def winDump : Dump :=
+  { walkDump with
+    arch := 0,
+    syms := [("mod", ({} : Walk.SymFile),
+              [({ ty := '4', addr := 0x100, size := 0x300, par := 0, sav := 0, loc := 0, hp := '1',
+                  rest := "$T0 $ebp = $eip $T0 4 + ^ = $ebp $T0 ^ = $esp $T0 8 + =".toList } : Win.Rec)])] }
+
+example : Walk.noWins (winsOf winDump) = false ∧ (winsOf winDump).map List.length = [1] ∧
+    (worldOf winDump).syms.map Option.isSome = [true] := by decide
+
+/-! ### `own_stack_by_start_redundant`: both cases of the argument are inhabited -/
+
+/-- a thread whose stack descriptor cannot be read and starts at region A's base -/
+def bareThread : Thread := ⟨1, some ⟨0x400100, 0x10008, 0x10010, []⟩, 0x10000, .unreadable⟩
+
+/-- the fallback finds region A by the start address (it is isolated: `stack_memory_lookup_complete`) -/
+example : ownDesc bareThread = none ∧ ownStack [regionA, regionB] bareThread = some regionA := by
+  refine ⟨rfl, ?_⟩
+  show memAt ([] ++ regionA :: [regionB]) 0x10000 = some regionA
+  exact stack_memory_lookup_complete [] [regionB] regionA 0x10000 (by decide)
+    (by intro x hx; simp at hx; subst hx; right; right; right; decide) (by decide)
+
+/-- case 1: sp = 0x10008 has eight bytes in region A — WITHOUT the fallback the lookup by sp finds
+    the same region (`stack_memory_lookup_same_region`) -/
+example : selectMemDirect [regionA, regionB] bareThread (some 0x10008) = some regionA := by
+  have hA : memAt ([] ++ regionA :: [regionB]) 0x10000 = some regionA :=
+    stack_memory_lookup_complete [] [regionB] regionA 0x10000 (by decide)
+      (by intro x hx; simp at hx; subst hx; right; right; right; decide) (by decide)
+  have := stack_memory_lookup_same_region _ 0x10000 0x10008 regionA hA (by decide)
+  simp only [List.nil_append] at this
+  simp [selectMemDirect, ownDesc, bareThread, hasWord_none, this]
+
+/-- case 2: sp = 0x30000 lies in no region — with the fallback the walk gets region A, without it
+    nothing; `own_stack_by_start_redundant` says the frames are the same (the context frame) -/
+example : memAt [regionA, regionB] 0x30000 = none := by
+  cases h : memAt [regionA, regionB] 0x30000 with
+  | none => rfl
+  | some r =>
+    obtain ⟨hm, -, -, -, hhi⟩ := stack_memory_lookup_sound _ _ _ h
+    simp only [List.mem_cons, List.not_mem_nil, or_false] at hm
+    rcases hm with rfl | rfl
+    · exact absurd hhi (by decide)
+    · exact absurd hhi (by decide)
+
+example (d : Dump) :
+    framesOf d (selectMem (memoryList d) bareThread (some 0x30000)) (toCtx d.arch ⟨0x400100, 0x30000, 0, []⟩) =
+    framesOf d (selectMemDirect (memoryList d) bareThread (some 0x30000)) (toCtx d.arch ⟨0x400100, 0x30000, 0, []⟩) :=
+  own_stack_by_start_redundant d bareThread ⟨0x400100, 0x30000, 0, []⟩
 
 /-- copy rules: Windows keeps version and service pack (`os_parts_spec`, first rule), Linux 0.0.0
     takes the `uname` text apart (`linuxBuildPieces_spec`) -/
